@@ -111,7 +111,22 @@ func ruleCALLBACKARG(p *Program, rep *Report) {
 						fromN = true
 					}
 				}
-				f1, _ := sliceOf(p, c.Common().Args[1])
+				// the page count may be handed down as a parameter (callback invoked in a helper): follow
+				// parameters to the call sites inside package pq
+				sl1 := &slicer{p: p, fields: map[*types.Var]bool{}, seen: map[sliceKey]bool{}, within: pqFns}
+				sl1.walk(c.Common().Args[1], 0, nil, 0)
+				f1 := sl1.fields
+				if !fromN {
+					sl0 := &slicer{p: p, fields: map[*types.Var]bool{}, seen: map[sliceKey]bool{}, within: pqFns}
+					sl0.walk(c.Common().Args[0], 0, nil, 0)
+					for k := range sl0.seen {
+						if par, isPar := k.v.(*ssa.Parameter); isPar {
+							if bt, isB := par.Type().Underlying().(*types.Basic); isB && bt.Info()&types.IsInteger != 0 && par.Parent().Signature.Recv() != nil && isNamed(par.Parent().Signature.Recv().Type(), modPath+"/pq", "acker") {
+								fromN = true
+							}
+						}
+					}
+				}
 				if fromN && f1[free] {
 					rep.OK("CALLBACK-ARG", key, p.InstrPos(c), "ACKed(n, len(plan))")
 				} else {
